@@ -51,6 +51,7 @@ func runC03(c *Ctx, w *World, r *Report) {
 		"bmtree.pathCheck", "bmtree.bitmapSizeCheck", "bmtree.bitmapMustHaveLevel", "bmtree.bitmapPathMustHaveEqualHeight"}
 	fns, ok := requireFuncs(w, r, names...)
 	ReportScale(w, r, names[:5]...)
+	ReportMul32(w, r, names[:5]...)
 	if !ok {
 		return
 	}
